@@ -59,7 +59,7 @@ impl Property for C14 {
         "a case is a history: a mesh (grids with creases/waves, L-shapes, tubes, fans, boxes, prisms, icospheres; adjacent faces share vertices but differ in normal), a reference mesh posed nearby (offset copies, tilted planes, partial overlaps), a starting selection (none / all / arbitrary index set) and 1-5 steps of (facing | near-mesh with distance, optional planar and optional angle tolerance, all-vertices or any-vertex) x (Add | Remove | Keep). Model: each face's predicate is evaluated from scratch by the harness (own closest-point scan; three-valued with a 1e-9 don't-care band) and combined by set union / difference / intersection; the library result is compared after every step and recomputed 6 times (hash order). Non-trivial: >=2 steps, at least one near-mesh step with an angle tolerance, and the selection changes in >=2 steps. Distinct = distinct canonical JSON."
     }
     fn cases(t: Tier) -> u32 {
-        t.pick(40_000, 1_000_000)
+        t.pick(240_000, 1_000_000)
     }
     fn expected_labels() -> Vec<&'static str> {
         vec!["start_none", "start_all", "start_indices", "facing", "near", "near_angle", "near_planar", "all_points", "any_point", "add", "remove", "keep", "create_mesh", "changed>=2"]
